@@ -112,6 +112,8 @@ package main
 //@   assumes m != nil
 //@   requires {statistics-well-formed} metricsWF(m)
 //@   assumes m.promMetrics != nil && m.promMetrics.ProxyTotal != nil
+//   (label names: established by initPrometheus - ensures, checked - and kept by the immutability of every field on the way)
+//@   assumes promLabels(m.promMetrics)
 //@   ensures {sets} ucsSets(m, proxyType)
 //@   ensures {stays-well-formed} metricsWF(m)
 //@   ensures {recorded} ucsSeen(m, addr, proxyType)
@@ -198,6 +200,8 @@ package main
 //@ func (ctx *BrokerContext) AddSnowflake(id string, proxyType string, natType string, clients int) (r *Snowflake)
 //@   props C03, C02, C04, C14
 //@   requires ctx != nil
+//   (label names: established by initPrometheus - ensures, checked - and kept by the immutability of every field on the way)
+//@   assumes ctx.metrics != nil && promLabels(ctx.metrics.promMetrics)
 //@   flag nosafety paths
 //@   at call Push ghost snowflake.registered = true
 //@   ensures {registered} r.registered
@@ -210,6 +214,8 @@ package main
 //@   props C03, C02, C04, C14
 //@   flag concurrent paths nosafety lifetime=After paired-send=RequestOffer paired-recv=ClientOffers
 //@   requires ctx != nil && request != nil && snowflake != nil && snowflake.registered && snowflake.natType == request.natType && snowflake.id == request.id && request.offerChannel != nil
+//   (label names: established by initPrometheus - ensures, checked - and kept by the immutability of every field on the way)
+//@   assumes ctx.metrics != nil && promLabels(ctx.metrics.promMetrics)
 //@   at entry ghost wasQueued = false
 //@   after call Lock ghost wasQueued = (snowflake.index != -1)
 //@   at call close assert {only-a-poll-nobody-matched-is-closed} wasQueued
@@ -245,6 +251,8 @@ package main
 //@   props C02, C03, C04, C14
 //@   flag concurrent nosafety paired-send=Broker$1 lifetime=After
 //@   requires i != nil && i.ctx != nil && response != nil
+//   (label names: established by initPrometheus - ensures, checked - and kept by the immutability of every field on the way)
+//@   assumes i.ctx.metrics != nil && promLabels(i.ctx.metrics.promMetrics)
 //@   at entry ghost bridgeOK = false
 //@   after call GetBridgeInfo ghost bridgeOK = (ret1 == nil)
 //@   at call matchSnowflake assert {bridge-known-before-any-match} bridgeOK && arg1 == offer.natType
@@ -271,6 +279,8 @@ package main
 //@   props C02, C04, C06
 //@   flag nosafety
 //@   requires i != nil && i.ctx != nil && response != nil
+//   (label names: established by initPrometheus - ensures, checked - and kept by the immutability of every field on the way)
+//@   assumes i.ctx.metrics != nil && promLabels(i.ctx.metrics.promMetrics)
 //@   at entry ghost patternOK = false
 //@   after call CheckProxyRelayPattern ghost patternOK = ret0
 //@   at call CheckProxyRelayPattern assert {pattern-checked-as-announced} arg1 == relayPattern && arg2 == !relayPatternSupported
@@ -327,6 +337,33 @@ package main
 //@   at call NewArmorEncoder assert {armor-only-after-200} calls(WriteHeader) == 1 && arg0 == w
 //@   at call Write assert {armors-exactly-the-response} base(arg0) == base(response) && len(arg0) == len(response)
 //@   ensures {exactly-one-status-line} calls(WriteHeader) == 1
+//
+// ---- Prometheus label sets (C14) ----
+// A vector's With panics (inside the Prometheus client, or in RoundedCounterVec.With) unless the label map it is given
+// has exactly the label names the vector was created with. The names are fixed by initPrometheus; every use in a
+// request handler must agree with them, or that request kills its connection without a response.
+//@ pred fitsVec(labels prometheus.Labels, v *prometheus.MetricVec) = v != nil && len(labels) == v.nl && (v.nl > 0 ==> has(labels, v.l0)) && (v.nl > 1 ==> has(labels, v.l1)) && (v.nl > 2 ==> has(labels, v.l2))
+//@ pred promLabels(pm *PromMetrics) = pm != nil && pm.ProxyTotal != nil && pm.ProxyTotal.nl == 3 && pm.ProxyTotal.l0 == "type" && pm.ProxyTotal.l1 == "nat" && pm.ProxyTotal.l2 == "cc" && pm.AvailableProxies != nil && pm.AvailableProxies.nl == 2 && pm.AvailableProxies.l0 == "type" && pm.AvailableProxies.l1 == "nat" && pm.ProxyPollTotal != nil && pm.ProxyPollTotal.MetricVec != nil && pm.ProxyPollTotal.MetricVec.nl == 2 && pm.ProxyPollTotal.MetricVec.l0 == "nat" && pm.ProxyPollTotal.MetricVec.l1 == "status" && pm.ClientPollTotal != nil && pm.ClientPollTotal.MetricVec != nil && pm.ClientPollTotal.MetricVec.nl == 2 && pm.ClientPollTotal.MetricVec.l0 == "nat" && pm.ClientPollTotal.MetricVec.l1 == "status" && pm.ProxyPollWithRelayURLExtensionTotal != nil && pm.ProxyPollWithRelayURLExtensionTotal.MetricVec != nil && pm.ProxyPollWithRelayURLExtensionTotal.MetricVec.nl == 2 && pm.ProxyPollWithRelayURLExtensionTotal.MetricVec.l0 == "nat" && pm.ProxyPollWithRelayURLExtensionTotal.MetricVec.l1 == "type" && pm.ProxyPollWithoutRelayURLExtensionTotal != nil && pm.ProxyPollWithoutRelayURLExtensionTotal.MetricVec != nil && pm.ProxyPollWithoutRelayURLExtensionTotal.MetricVec.nl == 2 && pm.ProxyPollWithoutRelayURLExtensionTotal.MetricVec.l0 == "nat" && pm.ProxyPollWithoutRelayURLExtensionTotal.MetricVec.l1 == "type" && pm.ProxyPollRejectedForRelayURLExtensionTotal != nil && pm.ProxyPollRejectedForRelayURLExtensionTotal.MetricVec != nil && pm.ProxyPollRejectedForRelayURLExtensionTotal.MetricVec.nl == 2 && pm.ProxyPollRejectedForRelayURLExtensionTotal.MetricVec.l0 == "nat" && pm.ProxyPollRejectedForRelayURLExtensionTotal.MetricVec.l1 == "type"
+//@ immutable PromMetrics.ProxyTotal, PromMetrics.AvailableProxies, PromMetrics.ProxyPollTotal, PromMetrics.ClientPollTotal, PromMetrics.ProxyPollWithRelayURLExtensionTotal, PromMetrics.ProxyPollWithoutRelayURLExtensionTotal, PromMetrics.ProxyPollRejectedForRelayURLExtensionTotal, RoundedCounterVec.MetricVec, Metrics.promMetrics
+//
+//   (a vector's label names never change after it is created: the library offers no way to change them)
+//@ immutable ghost prometheus.MetricVec.nl, ghost prometheus.MetricVec.l0, ghost prometheus.MetricVec.l1, ghost prometheus.MetricVec.l2, ghost prometheus.CounterVec.nl, ghost prometheus.CounterVec.l0, ghost prometheus.CounterVec.l1, ghost prometheus.CounterVec.l2, ghost prometheus.GaugeVec.nl, ghost prometheus.GaugeVec.l0, ghost prometheus.GaugeVec.l1, ghost prometheus.GaugeVec.l2, ghost prometheus.Desc.nl, ghost prometheus.Desc.l0, ghost prometheus.Desc.l1, ghost prometheus.Desc.l2
+//
+//@ func NewRoundedCounterVec(opts prometheus.CounterOpts, labelNames []string) (r *RoundedCounterVec)
+//@   props C14
+//@   flag nosafety
+//@   requires len(labelNames) <= 3
+//@   ensures {vector-carries-its-label-names} r != nil && r.MetricVec != nil && r.MetricVec.nl == len(labelNames) && (len(labelNames) > 0 ==> r.MetricVec.l0 == labelNames[0]) && (len(labelNames) > 1 ==> r.MetricVec.l1 == labelNames[1]) && (len(labelNames) > 2 ==> r.MetricVec.l2 == labelNames[2])
+//
+//@ func (v *RoundedCounterVec) With(labels prometheus.Labels) (r RoundedCounter)
+//@   props C14
+//@   flag nosafety safety-keep=panic
+//@   requires {labels-are-the-vectors-label-names} v != nil && fitsVec(labels, v.MetricVec)
+//
+//@ func initPrometheus() (r *PromMetrics)
+//@   props C14
+//@   flag nosafety
+//@   ensures {label-names-as-the-handlers-use-them} promLabels(r)
 //
 // ---- lock discipline (C20) ----
 //@ guarded BrokerContext.idToSnowflake by snowflakeLock
